@@ -1,6 +1,6 @@
 (* C14 property theorems. Nothing but statements closed by `exact lemma` and Print Assumptions. *)
 From Coq Require Import ZArith List Bool Lia.
-From OG Require Import C14.Model C14.Proofs C14.Inv C14.XModel C14.XProofs C14.XInv.
+From OG Require Import C14.Model C14.Proofs C14.Inv C14.XModel C14.XProofs C14.XInv C14.XNode.
 Import ListNotations.
 Open Scope Z_scope.
 
@@ -213,3 +213,41 @@ Theorem C14_admitted_point_in_live_group : forall d nowsec t e,
   0 < d -> write_accept d nowsec t = true -> t < e -> expired d e (nowsec * 1000000000) = false.
 Proof. intros d nowsec t e Hd Ha Ht. apply (admitted_not_expired_skew d nowsec t e); auto; lia. Qed.
 Print Assumptions C14_admitted_point_in_live_group.
+
+(* -- node level: one pass of the retention service -- *)
+(* When the catalogue satisfies XInv and the node of partition pt agrees with it (NodeOK, XNode.v: every shard and
+   index of the node is the one the catalogue lists for this partition with the catalogue's span, every shard's index
+   is on the node, shard ids unique), a pass at clock reading `now` deletes an index only if EVERY shard of the node
+   that refers to it is deleted by the same pass - and that shard is expired under its policy's duration in force.
+   (NodeOK is a precondition of the step, not an invariant: a node may keep a shard whose group has already left the
+   catalogue; such shards are covered by C14_safety's "duration last learnt" clause and by the direct oracle.) *)
+Theorem C14_index_deleted_only_with_its_shards : forall rep w pt now,
+  XInv (x_cat w) -> NodeOK w pt ->
+  forall X, In X (l_ixs (snd (xtick rep w pt now))) ->
+  forall s, In s (x_shards w) -> xs_pt s = pt -> xs_ix s = X ->
+    In (xs_id s) (l_shards (snd (xtick rep w pt now))) /\
+    exists sg cs, In sg (c_sgs (x_cat w)) /\ In cs (sg_shards sg) /\ cs_id cs = xs_id s /\ sg_end sg = xs_end s /\
+                  expired (pol_d (x_cat w) (sg_rp sg)) (sg_end sg) now = true.
+Proof. exact xtick_index_victims. Qed.
+Print Assumptions C14_index_deleted_only_with_its_shards.
+
+(* the hypotheses are satisfiable and the conclusion is not vacuous: a reachable world (two shard groups sharing one
+   index, one shard loaded, one on disk) that satisfies NodeOK, in which a pass deletes the index and both shards *)
+Example C14_node_ok_example :
+  let H := 3600000000000 in
+  let w := fst (xrun true true (xworld0 [{| xp_id := 1; xp_d := H; xp_sgd := H; xp_igd := 2 * H |}] 1)
+                  [XCreate 1 (472140 * H); XCreate 1 (472141 * H); XMat 1 true; XMat 2 false]) in
+  NodeOK w 0 /\ XInv (x_cat w) /\
+  l_ixs (snd (xtick true w 0 (472142 * H + H + 1))) = [1] /\ l_shards (snd (xtick true w 0 (472142 * H + H + 1))) = [1; 2].
+Proof.
+  cbv zeta. split; [|split; [apply XInv_xrun; apply XInv_init|vm_compute; auto]].
+  match goal with |- NodeOK ?w _ => let v := eval vm_compute in w in change w with v end.
+  constructor.
+  - intros s [<-|[<-|[]]] _; unfold listed_shard; cbn.
+    + eexists _, _. split; [left; reflexivity|]. cbn. split; [left; reflexivity|]. cbn. auto.
+    + eexists _, _. split; [right; left; reflexivity|]. cbn. split; [left; reflexivity|]. cbn. auto.
+  - intros i [<-|[]] _; unfold listed_index; cbn.
+    eexists _, _. split; [left; reflexivity|]. cbn. split; [left; reflexivity|]. cbn. auto.
+  - intros s [<-|[<-|[]]] _; reflexivity.
+  - intros s s' [<-|[<-|[]]] [<-|[<-|[]]]; cbn; intros; auto; discriminate.
+Qed.
